@@ -33,7 +33,9 @@ SPEC = {
             "reductions) count one evaluation per input and one non-trivial object per shard. Zero/one/equality predicates are additionally swept "
             "deterministically over every single-bit and one-limb-mask difference of the internal (Montgomery) representation, and Kyber "
             "Poly.Normalize/BarrettReduce over all int16 in all 16 SIMD lanes. For Montgomery-form types a quarter of the arithmetic cases solve the operands so that "
-            "the internal word of the RESULT is a drawn edge word (mostly in the gap [0, 2^w-p)), and every result is compared both by value and as the canonical object. An aliased call is always preceded by the "
+            "the internal word of the RESULT is a drawn edge word (mostly in the gap [0, 2^w-p)), and every result is compared both by value and as the canonical object. The Poly operations of sign/internal/dilithium and of the Kyber common package "
+            "are fed exactly their documented input ranges (structured coefficients up to 2^32-1 resp. the int16 limits, products just below the documented bound) "
+            "on the dispatched (AVX2) and the generic code. An aliased call is always preceded by the "
             "same call on distinct objects, so a failure keyed '<type>/<op>/aliased' is caused by the aliasing itself.",
     "assumptions": COMMON_ASSUME + [
         "reference for the BLS12-381 tower: ref/fptower (polynomials in w over Fp2 with w^6 = 1+u on math/big, inverse by Gaussian elimination); "
